@@ -66,6 +66,54 @@ def run(ctx):
         r1.check(bool(plain) and now_ok and not keep, "ban-refreshes-entry", "ban() overwrites the entry with the current time",
                  "ban() keeps an existing entry (%s) instead of overwriting it with the current time: a stale, already expired entry survives a new failure, the next checkout that reaches the replica sees the old timestamp, "
                  "un-bans it and hands it to clients although it has just failed" % (sorted({c.name.split("::")[-1] for c in keep}) or "no plain insert"), (keep or plain or [None])[0].where() if (keep or plain) else "")
+    # ... but not over the administrator's word: `BAN host seconds` holds for the given duration. A client that held the replica when it was banned may still fail on it
+    # (the replica is stopped for the maintenance it was banned for): that failure's ban() finds a running AdminBan entry and leaves it - an overwritten entry would run
+    # out after ban_time (D89). An AdminBan itself always replaces what is there (D88).
+    if bn:
+        plain_blocks = [c.block for c in bl if c.body is bn and c.name.endswith("::insert")]
+        rets = [bb for bb, blk in enumerate(bn.blocks) if blk["term"]["k"] == "return"]
+        entry_sw, param_sw = [], []
+        for sw in switches(bn):
+            d = sw.discr()
+            if not d or not d[0].startswith("pgcat::pool::BanReason") or "AdminBan" not in d[2]:
+                continue
+            if "@Some" in place_str(d[1]):   # the scrutinee is inside an Option handed out by the list (`.get(address)`)
+                entry_sw.append((sw, d))
+            elif not d[1]["p"] or all(p_ == "*" for p_ in d[1]["p"]):
+                param_sw.append((sw, d))
+        keeps = [(sw, d) for sw, d in entry_sw if plain_blocks and bn.uncrossed_path([d[2]["AdminBan"]], rets, blocks=plain_blocks) is not None]
+        r1.check(bool(keeps), "failure-keeps-a-running-admin-ban", "ban() looks at the entry it would replace: over `existing entry is an AdminBan` there is a way out that leaves it (%d test(s))" % len(entry_sw),
+                 "ban() inserts its entry whatever the list holds: the failure of a client that still held the replica when the administrator banned it (`BAN host 3600`, then the replica is stopped) replaces AdminBan(3600) "
+                 "with a failure entry - the ban runs out after ban_time, not after the administrator's duration", bn.blocks and ("bb%d of %s" % (plain_blocks[0], bn.name)) if plain_blocks else "")
+        if keeps:
+            # the way out is for failures only: an AdminBan given to ban() reaches the insert on every path (and the duration is compared, not just the variant)
+            # (`matches!(reason, AdminBan(_))` lowers to a variant switch whose arms assign a constant that a second switch reads: the AdminBan arm is followed
+            # through the edge of its own constant)
+            def arm_continuation(sw, d):
+                a = d[2]["AdminBan"]
+                val = None
+                cur = a
+                for _ in range(4):      # the arm's own straight-line blocks (a falseedge block comes first)
+                    for st_ in bn.blocks[cur]["stmts"]:
+                        if st_["k"] == "assign" and st_["rv"]["k"] == "use" and const_int(st_["rv"]["op"]) in (0, 1):
+                            val = const_int(st_["rv"]["op"])
+                    nx = [x for x in bn.succ("n")[cur]]
+                    if val is not None or bn.blocks[cur]["term"]["k"] not in ("goto", "falseedge") or not nx:
+                        break
+                    cur = bn.blocks[cur]["term"]["target"]
+                nxt = [s2 for s2 in switches(bn) if s2.is_bool() and s2.block != sw.block and bn.dominates(sw.block, s2.block) and s2.origins() and all(o.kind == "const" for o in s2.origins())]
+                if val is None or not nxt:
+                    return a
+                s2 = min(nxt, key=lambda x: len([b_ for b_ in range(bn.nblocks) if bn.dominates(b_, x.block)]))
+                te, fe = s2.bool_edges()
+                return (te if val else fe)[1]
+            admin_in = [arm_continuation(sw, d) for sw, d in param_sw if any(bn.dominates(sw.block, k[0].block) for k in keeps)]
+            wit = bn.uncrossed_path(admin_in, rets, blocks=plain_blocks) if admin_in else [0]
+            r1.check(bool(admin_in) and wit is None, "admin-ban-always-replaces", "an AdminBan given to ban() reaches the insert on every path (the keep exit lies behind `reason is not AdminBan`)",
+                     "the exit of ban() that keeps an existing admin ban can also be taken by a new AdminBan: a second, longer BAN of the administrator would be ignored")
+            cmpd = [sw for sw in switches(bn) if sw.is_bool() and any(o.kind == "bin" and o.what in ("Le", "Lt", "Gt", "Ge") for o in sw.origins()) and any(bn.dominates(k[1][2]["AdminBan"], sw.block) for k in keeps)]
+            r1.check(bool(cmpd), "kept-only-while-it-lasts", "the existing admin ban is kept only while its duration has not run out (a comparison stands behind the variant test)",
+                     "ban() keeps an AdminBan entry without looking at its age: an admin ban that has run out (entries are collected lazily) would swallow a new failure - the next checkout un-bans the replica that has just failed")
     # ---------------- R2 failures ban and fall through to the next candidate
     r2 = ctx.rule("C07-R2", "a failed checkout or health check bans the address and moves on to the next candidate; errors while talking to a server ban it (and a timed-out server is also marked bad)", floor=6)
     g = ctx.body(GETC, r2)
